@@ -1190,6 +1190,34 @@ func (c *Ctx) TERM(rule string, entry ...string) []report.Obligation {
 		}
 	}
 	c.Stats[rule+".recursive_sccs"] = nrec
+	// depth: a function that calls itself on the rest of a text it is consuming (a suffix of its own string / byte
+	// parameter) uses one stack frame per piece consumed. Termination is not the issue - the depth is: it grows
+	// with the length of the input, and stack exhaustion is a fatal error that cannot be recovered from.
+	// (Recursion over the decoded YAML tree is bounded by its nesting depth, which the YAML decoder limits.)
+	for _, e := range edges {
+		if e.from != e.to {
+			continue
+		}
+		for i, a := range e.site.Common().Args {
+			sl, ok := a.(*ssa.Slice)
+			if !ok || sl.Low == nil || sl.High != nil || i >= len(e.from.Params) || !isByteSeq(sl.Type()) {
+				continue
+			}
+			// the sliced value is the same parameter, possibly re-sliced on the way
+			base := sl.X
+			for d := 0; d < 6; d++ {
+				if s2, isS := base.(*ssa.Slice); isS {
+					base = s2.X
+					continue
+				}
+				break
+			}
+			if base == ssa.Value(e.from.Params[i]) {
+				out = append(out, bad(rule, "depth :: "+c.P.FuncID(e.from), c.P.InstrPos(e.site),
+					"the function calls itself on the rest of the text it consumes: one stack frame per piece, so the depth grows with the length of the input and a long enough file exhausts the stack (fatal, not recoverable); a loop does the same in constant stack"))
+			}
+		}
+	}
 	// condition-less for loops
 	for _, f := range fns {
 		if f.Syntax() == nil {
